@@ -111,13 +111,11 @@ impl<T> DefList<T>
 
     pub fn maybe_get(&self, item_ref: util::ItemRef<T>) -> Option<&T>
     {
-        if item_ref.0 >= self.defs.len()
+        // The slot may also exist without having been filled in yet
+        match self.defs.get(item_ref.0)
         {
-            None
-        }
-        else
-        {
-            Some(self.defs[item_ref.0].as_ref().unwrap())
+            Some(maybe_def) => maybe_def.as_ref(),
+            None => None,
         }
     }
 
